@@ -1,6 +1,6 @@
 From Coq Require Import List NArith.
-From QV Require Import Mpool.Model.
+From QV Require Import Mpool.Model Mpool.Micro.
 Require Extraction.
 Require Import ExtrOcamlBasic.
 Extraction Language OCaml.
-Extraction "../ocaml/gen/c14_model.ml" create_sizes pool_of_sizes alloc free world_step get_pool get_cache offset_of.
+Extraction "../ocaml/gen/c14_model.ml" create_sizes pool_of_sizes alloc free world_step get_pool get_cache offset_of mstep get_thr.
